@@ -21,6 +21,15 @@ from .constantfolder import ConstantFolder
 from .env import Environment
 
 
+def _elts_of(ttype):
+    """Elements of a tuple type (Tuple[a, b] or the bare tuple of a Qmatrix row), or None"""
+    if isinstance(ttype, ast.Tuple):
+        return ttype.elts
+    elif isinstance(ttype, ast.Subscript) and isinstance(ttype.slice, ast.Tuple):
+        return ttype.slice.elts
+    return None
+
+
 def create_if_exp(nname, iname, max_i, jname=None, max_j=None):
     """Given a List or List of List `nname`, an index `iname` and an optional index `jname`,
     returns L[0] if i == 0 else L[1] if i == 1 ..."""
@@ -164,7 +173,7 @@ class ASTRewriter(ast.NodeTransformer):
             else:
                 outer_tuple = gtype.slice
                 max_i = len(outer_tuple.elts) - 1
-                inner_tuple = outer_tuple.elts
+                inner_tuple = _elts_of(outer_tuple.elts[0])
                 max_j = len(inner_tuple) - 1
 
             # Create the IfExp structure
@@ -366,6 +375,10 @@ class ASTRewriter(ast.NodeTransformer):
                 and isinstance(_sval.slice, ast.Tuple)
                 and isinstance(arg.slice, ast.Constant)
             ):
+                # The length is the one of the selected element, not of the container
+                inner = _elts_of(_sval.slice.elts[arg.slice.value])
+                inner_len = len(inner if inner is not None else _sval.slice.elts)
+
                 return [
                     ast.Subscript(
                         value=ast.Subscript(
@@ -374,7 +387,7 @@ class ASTRewriter(ast.NodeTransformer):
                         ),
                         slice=ast.Constant(value=i, kind=None),
                     )
-                    for i in range(len(_sval.slice.elts))
+                    for i in range(inner_len)
                 ]
         elif isinstance(arg, ast.Name):
             # If it's a name, is in env and is a Tuple, return elements
